@@ -1317,7 +1317,11 @@ where
 			let mut batch = Vec::with_capacity(unchecked_batch.len());
 
 			for call in unchecked_batch {
-				if let Ok(req) = deserialize_with_ext::call::from_str(call.get(), &extensions) {
+				// Only a JSON object can be a request or a notification; serde would also accept an array holding the
+				// members in order, e.g. `["2.0", 1, "method"]`.
+				if !call.get().starts_with('{') {
+					batch.push(Err(BatchEntryErr::new(Id::Null, ErrorCode::InvalidRequest.into())));
+				} else if let Ok(req) = deserialize_with_ext::call::from_str(call.get(), &extensions) {
 					batch.push(Ok(BatchEntry::Call(req)));
 				} else if let Ok(notif) = deserialize_with_ext::notif::from_str::<Notif>(call.get(), &extensions) {
 					batch.push(Ok(BatchEntry::Notification(notif)));
